@@ -41,7 +41,7 @@ if TYPE_CHECKING:
     from .._relation import Relation
 
 
-@dataclasses.dataclass
+@dataclasses.dataclass(frozen=True)
 class SortTerm:
     """Sort expression and indication of sort direction."""
 
